@@ -5,6 +5,7 @@ import (
 	"go/constant"
 	"go/token"
 	"go/types"
+	"regexp"
 	"strings"
 	"text/template"
 
@@ -389,8 +390,30 @@ func ruleAborts(c *core.Ctx, rule string) {
 						} else {
 							c.Violate(rule, fname, full, c.P.Pos(in.Pos()), full+" outside main.main ends the process without going through the error path", nil)
 						}
+					case strings.HasPrefix(full, "regexp.MustCompile"):
+						c.Universe(rule+" deliberate aborts", fname+": "+full+" ("+c.P.Pos(in.Pos())+")")
+						texts, ok := constStrings(in.Common().Args[0], 0)
+						if !ok {
+							c.Violate(rule, fname, full, c.P.Pos(in.Pos()), full+" panics when the pattern does not compile, and the pattern here is not a compile-time constant: a pattern supplied by a flag, the configuration or a data file takes the process down instead of producing an error", nil)
+							continue
+						}
+						bad := ""
+						for _, t := range texts {
+							if _, err := regexp.Compile(t); err != nil {
+								bad = err.Error()
+							}
+						}
+						if bad != "" {
+							c.Violate(rule, fname, full, c.P.Pos(in.Pos()), "a constant pattern does not compile, so "+full+" panics: "+bad, nil)
+						} else {
+							c.Discharge(rule, fname, full, c.P.Pos(in.Pos()), fmt.Sprintf("all %d possible patterns are constants and compile", len(texts)))
+						}
 					case full == "text/template.Must":
 						c.Universe(rule+" deliberate aborts", fname+": template.Must ("+c.P.Pos(in.Pos())+")")
+						if isTextTemplateClone(in.Common().Args[0]) {
+							c.Discharge(rule, fname, "template.Must", c.P.Pos(in.Pos()), "wraps (*text/template.Template).Clone, which never returns an error")
+							continue
+						}
 						texts, ok := templateTexts(in.Common().Args[0])
 						if !ok {
 							c.Undecide(rule, fname, "template.Must", c.P.Pos(in.Pos()), "template.Must panics on a parse error and the template text is not a set of compile-time constants", nil)
@@ -412,6 +435,19 @@ func ruleAborts(c *core.Ctx, rule string) {
 			}
 		}
 	}
+}
+
+// isTextTemplateClone: v is (the template result of) a call of text/template's Clone.
+func isTextTemplateClone(v ssa.Value) bool {
+	if ext, ok := v.(*ssa.Extract); ok {
+		v = ext.Tuple
+	}
+	call, ok := v.(*ssa.Call)
+	if !ok {
+		return false
+	}
+	cal := call.Call.StaticCallee()
+	return cal != nil && cal.String() == "(*text/template.Template).Clone"
 }
 
 func stubFuncs() template.FuncMap {
@@ -459,6 +495,58 @@ func constStrings(v ssa.Value, depth int) ([]string, bool) {
 			out = append(out, s...)
 		}
 		return out, true
+	case *ssa.Parameter:
+		fn := x.Parent()
+		if fn == nil || fn.Parent() == nil {
+			return nil, false
+		}
+		idx := -1
+		for i, prm := range fn.Params {
+			if prm == x {
+				idx = i
+			}
+		}
+		var out []string
+		var scan func(g *ssa.Function) bool
+		scan = func(g *ssa.Function) bool {
+			for _, b := range g.Blocks {
+				for _, in := range b.Instrs {
+					ci, ok := in.(ssa.CallInstruction)
+					if !ok || ci.Common().StaticCallee() != fn || idx < 0 || idx >= len(ci.Common().Args) {
+						continue
+					}
+					s, ok := constStrings(ci.Common().Args[idx], depth+1)
+					if !ok {
+						return false
+					}
+					out = append(out, s...)
+				}
+			}
+			for _, a := range g.AnonFuncs {
+				if a != fn && !scan(a) {
+					return false
+				}
+			}
+			return true
+		}
+		// a closure is only callable from the function that creates it (and its other closures), unless it escapes
+		for _, b := range fn.Parent().Blocks {
+			for _, in := range b.Instrs {
+				if mc, ok := in.(*ssa.MakeClosure); ok && mc.Fn == ssa.Value(fn) {
+					for _, r := range *mc.Referrers() {
+						if _, isCall := r.(ssa.CallInstruction); !isCall {
+							if _, isDbg := r.(*ssa.DebugRef); !isDbg {
+								return nil, false // stored or passed on: callers unknown
+							}
+						}
+					}
+				}
+			}
+		}
+		if !scan(fn.Parent()) {
+			return nil, false
+		}
+		return out, len(out) > 0
 	case *ssa.Call:
 		cal := x.Call.StaticCallee()
 		if cal == nil || len(cal.Blocks) == 0 {
@@ -532,39 +620,48 @@ func ruleStringIndex(c *core.Ctx, rule string) {
 			continue
 		}
 		fname := core.FuncName(fn)
-		x := newExec(c)
 		okAt := map[*ssa.Index]bool{}
 		badAt := map[*ssa.Index]string{}
-		x.Hooks.Instr = func(x *absint.Exec, s *absint.State, in ssa.Instruction) {
-			ix, ok := in.(*ssa.Index)
-			if !ok || len(s.Frames) != 1 {
-				return
-			}
-			isSite := false
-			for _, st := range sites {
-				if st == ix {
-					isSite = true
+		// an unexported helper is judged in the context of its callers (what they established about the
+		// string holds inside it); anything else is judged on its own
+		roots := contextRoots(c.P, fn, 2)
+		failed := false
+		for _, root := range roots {
+			x := newExec(c)
+			x.Hooks.Instr = func(x *absint.Exec, s *absint.State, in ssa.Instruction) {
+				ix, ok := in.(*ssa.Index)
+				if !ok || len(s.Frames) == 0 {
+					return
 				}
-			}
-			if !isSite {
-				return
-			}
-			f := s.Frames[0]
-			xv, ok := f.Env[ix.X]
-			if !ok {
-				if cst, isC := ix.X.(*ssa.Const); isC && cst.Value != nil && len(constant.StringVal(cst.Value)) > 0 {
+				isSite := false
+				for _, st := range sites {
+					if st == ix {
+						isSite = true
+					}
+				}
+				if !isSite {
+					return
+				}
+				f := s.Frames[len(s.Frames)-1]
+				xv, ok := f.Env[ix.X]
+				if !ok {
+					if cst, isC := ix.X.(*ssa.Const); isC && cst.Value != nil && len(constant.StringVal(cst.Value)) > 0 {
+						okAt[ix] = true
+					}
+					return
+				}
+				if nonEmptyKnown(x, s, xv) {
 					okAt[ix] = true
+				} else {
+					badAt[ix] = x.Valuation(s)
 				}
-				return
 			}
-			if nonEmptyKnown(x, s, xv) {
-				okAt[ix] = true
-			} else {
-				badAt[ix] = x.Valuation(s)
+			x.Run(x.NewState(root, nil, nil))
+			if !account(c, x, rule, root) {
+				failed = true
 			}
 		}
-		x.Run(x.NewState(fn, nil, nil))
-		if !account(c, x, rule, fn) {
+		if failed {
 			continue
 		}
 		for _, st := range sites {
@@ -581,6 +678,43 @@ func ruleStringIndex(c *core.Ctx, rule string) {
 			}
 		}
 	}
+}
+
+// contextRoots: the functions from which fn is explored — fn itself when it is
+// exported, a closure, or has no static caller in the tree; otherwise its callers
+// (going up at most depth levels through unexported helpers).
+func contextRoots(p *core.Program, fn *ssa.Function, depth int) []*ssa.Function {
+	if depth == 0 || fn.Parent() != nil || fn.Object() == nil || fn.Object().Exported() {
+		return []*ssa.Function{fn}
+	}
+	var callers []*ssa.Function
+	seen := map[*ssa.Function]bool{}
+	for _, g := range p.Funcs {
+		for _, b := range g.Blocks {
+			for _, in := range b.Instrs {
+				if ci, ok := in.(ssa.CallInstruction); ok && ci.Common().StaticCallee() == fn && g != fn && !seen[g] {
+					seen[g] = true
+					callers = append(callers, g)
+				}
+			}
+		}
+	}
+	if len(callers) == 0 {
+		return []*ssa.Function{fn}
+	}
+	var out []*ssa.Function
+	for _, g := range callers {
+		top := g
+		for top.Parent() != nil {
+			top = top.Parent()
+		}
+		if top != g {
+			out = append(out, g) // a closure: explored as it stands
+			continue
+		}
+		out = append(out, contextRoots(p, g, depth-1)...)
+	}
+	return out
 }
 
 // nonEmptyKnown: the path condition says v != "" for v itself or for strings.Trim*(v, …).
@@ -629,10 +763,10 @@ func nonEmptyKnown(x *absint.Exec, s *absint.State, v absint.Value) bool {
 func init() {
 	register(&Property{
 		ID:    "C08",
-		Rules: []string{"C08-R1", "C08-R2", "C08-R3", "C08-R4", "C08-R5"},
+		Rules: []string{"C08-R1", "C08-R2", "C08-R3", "C08-R4", "C08-R5", "C08-R6"},
 		Explain: "Decides the crash and hang mechanisms visible in the shape of this code (not general panic freedom): C08-R1 the (record, err) contract of ParseCallback on both sides — the parser passes (non-nil, nil) or (nil, non-nil) and no callback dereferences the record when an error is given; " +
 			"C08-R2 every recursive function has a ranking argument (depth counter bounded from above on the path to the call, or descent into a tree whose nodes are only linked to freshly allocated nodes); " +
-			"C08-R3 no panic/log.Fatal/os.Exit outside main.main, template.Must only on constant templates that parse; C08-R4 the accumulator map is written only when allocated; " +
+			"C08-R3 no panic/log.Fatal/os.Exit outside main.main, template.Must and regexp.MustCompile only on constants that parse; C08-R6 WithFileReaders stores a reader for every requested name before calling back; C08-R4 the accumulator map is written only when allocated; " +
 			"C08-R5 constant-position string indexing is reached only where the string is known non-empty.",
 		NotDecided: "index/slice bounds and nil dereferences in general, stack exhaustion under an absurd --maxdepth, termination of third-party code, a reader that never ends",
 		Run: func(c *core.Ctx) {
@@ -642,6 +776,87 @@ func init() {
 			ruleAborts(c, "C08-R3")
 			ruleNilMapWrite(c, "C08-R4")
 			ruleStringIndex(c, "C08-R5")
+			ruleFileReaders(c, "C08-R6")
 		},
 	})
+}
+
+// ruleFileReaders is C08-R6: the helper that opens the files of a command hands
+// its callback a reader for every requested name — a slot left nil is
+// dereferenced by the first consumer that scans it.
+func ruleFileReaders(c *core.Ctx, rule string) {
+	ctor := c.P.LookupFunc(core.CmdPath+"/internal/utils", "NewCmdUtils")
+	if !requireAnchor(c, rule, "utils.NewCmdUtils", ctor != nil) {
+		return
+	}
+	var fn *ssa.Function
+	for _, b := range ctor.Blocks {
+		for _, in := range b.Instrs {
+			st, ok := in.(*ssa.Store)
+			if !ok {
+				continue
+			}
+			fa, ok := st.Addr.(*ssa.FieldAddr)
+			if !ok || fieldName(fa.X.Type(), fa.Field) != "WithFileReaders" {
+				continue
+			}
+			switch v := st.Val.(type) {
+			case *ssa.Function:
+				fn = v
+			case *ssa.MakeClosure:
+				fn, _ = v.Fn.(*ssa.Function)
+			}
+		}
+	}
+	if !requireAnchor(c, rule, "the function stored in CmdUtils.WithFileReaders", fn != nil) {
+		return
+	}
+	fname := core.FuncName(fn)
+	x := newExec(c)
+	var bad []string
+	iterations, calls := 0, 0
+	x.Hooks.Call = func(x *absint.Exec, s *absint.State, site ssa.CallInstruction, callee *ssa.Function, fnv absint.Value, args []absint.Value) (absint.Value, bool) {
+		if callee == nil && site.Parent() == fn && !site.Common().IsInvoke() {
+			// the callback
+			calls++
+			return absint.Sym{Name: "cbresult"}, true
+		}
+		return nil, false
+	}
+	x.Hooks.Store = func(x *absint.Exec, s *absint.State, in *ssa.Store, addr, val absint.Value) {
+		if in.Parent() != fn {
+			return
+		}
+		if _, ok := in.Addr.(*ssa.IndexAddr); !ok {
+			return
+		}
+		s.SetData("stored", "1")
+		if k, ok := val.(absint.Const); ok && k.Key() == "c:nil" {
+			bad = append(bad, "a nil reader is stored for a requested file")
+		}
+	}
+	x.Hooks.BackEdge = func(x *absint.Exec, s *absint.State, f *absint.Frame, h *ssa.BasicBlock) {
+		if f.Fn != fn {
+			return
+		}
+		iterations++
+		if s.Data["stored"] != "1" {
+			bad = append(bad, "an iteration over the file names ends without storing a reader for that name: the callback receives a nil io.Reader and the scanner built on it dereferences nil")
+		}
+		s.SetData("stored", "")
+	}
+	x.Run(x.NewState(fn, nil, nil))
+	if !account(c, x, rule, fn) {
+		return
+	}
+	if iterations == 0 || calls == 0 {
+		bad = append(bad, fmt.Sprintf("explored %d iterations over the file names and %d callback invocations: the helper no longer has the expected shape", iterations, calls))
+	}
+	bad = uniq(bad)
+	if len(bad) == 0 {
+		c.Discharge(rule, fname, "every-slot", c.P.Pos(fn.Pos()), "every iteration either returns the open error or stores the opened file in the slot of that name before the callback runs")
+	}
+	for _, m := range bad {
+		c.Violate(rule, fname, "every-slot", c.P.Pos(fn.Pos()), m, nil)
+	}
 }
